@@ -5,18 +5,26 @@ from fractions import Fraction
 from vlib.framework import Family
 from vlib import coqlit as L
 from vlib.exactq import ExactQ, to_frac
+from harness.C16_util import MixRunner, CtlRunner, F
 
 PID = "C16"
 PROP_FILES = ["Prop"]
 ALLOWED_AXIOMS = []
-RULE = ("histories of Add(delta, data) / Next on a fresh Streamix (exact rational deltas and data, keep on/off, "
+RULE = ("round 2: the same histories with the object read through derived objects (iter, Stream(), operators, map, "
+        "copy, thub, an outer Streamix, a filter coefficient) and its last strong reference dropped (del + gc.collect) "
+        "before / between reads; event data of every kind (list tuple deque gen iterator Stream thub Streamix "
+        "ControlStream expressions, the same container twice); add() positional / keyword, delta int bool float "
+        "Fraction ExactQ, zero int bool float Fraction ExactQ default; reads and adds after the end; 2-3 objects "
+        "interleaved in one process (families mixes, ctls).  Round 1: "
+        "histories of Add(delta, data) / Next on a fresh Streamix (exact rational deltas and data, keep on/off, "
         "zero in {0, 0.0, 7/3}); exhaustive small universe + seeded random; non-trivial = at least two events, at least "
         "one fractional delta, and at least one Add after the first Next or overlapping events; ControlStream: "
         "histories of Set/Next, non-trivial = at least two Sets separated by a Next")
 EXHAUSTIVE = {"quick": False, "thorough": False}
 trusted_base = ["sample values and deltas are exact rationals (ExactQ absorbs the library's float constants 0.5 and 1. exactly)"]
 ASSUMPTIONS = ["CPython deque / list.remove / generator semantics as documented",
-               "event data are distinct iterator objects (list.remove by identity)"]
+               "event data are distinct iterator objects (list.remove by identity); re-iterable containers may repeat",
+               "float / Fraction deltas are used only where the float clock stays exact (dyadic), else ExactQ"]
 
 DELTAS = [Fraction(0), Fraction(1, 3), Fraction(1, 2), Fraction(1), Fraction(3, 2), Fraction(5, 2)]
 ZEROS = [("int", 0), ("float", 0.0), ("q", Fraction(7, 3))]
@@ -30,7 +38,7 @@ def mk_data(n, k):
   return [fr(Fraction(3 * k + i + 1, (i % 3) + 1)) for i in range(n)]
 
 
-def gen_mix(tier, rng):
+def gen_mix_round1(tier, rng):
   # exhaustive core: <= 2 events, every placement of the Adds among `total` Nexts
   nexts = 6
   for keep in (False, True):
@@ -49,7 +57,7 @@ def gen_mix(tier, rng):
             yield {"keep": keep, "zero": [z[0], fr(Fraction(z[1]))], "ops": ops, "dkind": "q",
                    "tags": ["exh", "nev=%d" % nev, "keep" if keep else "nokeep"]}
   # random histories
-  n = 600 if tier == "quick" else 12000
+  n = 400 if tier == "quick" else 8000
   for _ in range(n):
     nev = rng.randrange(0, 9)
     ops = []
@@ -58,6 +66,8 @@ def gen_mix(tier, rng):
       if rng.random() < 0.05:
         d = -d - Fraction(1, 5)
       ops.append(["add", fr(d), [fr(Fraction(rng.randrange(-9, 10), rng.choice([1, 2, 3, 5]))) for _ in range(rng.randrange(0, 6))]])
+      if rng.random() < 0.5:
+        ops[-1].append(rand_opts(rng))
     nn = rng.randrange(0, 25)
     ops += [["next"]] * nn
     if rng.random() < 0.6:
@@ -68,36 +78,184 @@ def gen_mix(tier, rng):
            "dkind": rng.choice(["q", "q", "float"]), "tags": ["random", "nev=%d" % min(nev, 4)]}
 
 
-def _delta(fr_, kind):
-  f = Fraction(fr_[0], fr_[1])
-  if kind == "float" and f.denominator in (1, 2, 4):
-    return float(f) if f.denominator != 1 else int(f)
-  return ExactQ(f)
+
+EKINDS = ["list", "tuple", "deque", "gen", "iter", "iteronly", "stream", "thub", "smix", "smixiter", "ctlmul", "ctladd",
+          "ctl", "repeat"]
+DKINDS = ["q", "int", "bool", "float", "frac"]
+CALLS = ["pos", "kw", "mixed", "kwrev"]
+ZKINDS = ["int", "float", "q", "frac", "bool", "default"]
+KEEPK = ["kw", "pos", "int", "attr"]
+MVIAS = ["iter", "stream", "add0", "radd0", "mul1", "sigadd", "map", "copy", "thub", "mix", "mixkw"]
+
+
+def rand_opts(rng):
+  return {"ek": rng.choice(EKINDS), "dk": rng.choice(DKINDS), "call": rng.choice(CALLS)}
+
+
+def rand_zero(rng):
+  k = rng.choice(ZKINDS)
+  v = Fraction(7, 3) if k in ("q", "frac") and rng.random() < 0.6 else Fraction(rng.choice([0, 0, 2]) if k in ("int", "float", "q", "frac") else 0)
+  return [k, fr(v)]
+
+
+def rand_data(rng, maxlen=5, const=False):
+  n = rng.randrange(0, maxlen + 1)
+  if const:
+    v = fr(Fraction(rng.randrange(-9, 10), rng.choice([1, 2, 3])))
+    return [v] * n
+  return [fr(Fraction(rng.randrange(-9, 10), rng.choice([1, 2, 3, 5]))) for _ in range(n)]
+
+
+def rand_adds(rng, nev, neg=0.05):
+  """adds in execution order; may reuse an earlier re-iterable container (same object added twice)"""
+  adds = []
+  for k in range(nev):
+    d = rng.choice(DELTAS + [Fraction(rng.randrange(0, 12), rng.choice([1, 2, 3, 4, 8]))])
+    if rng.random() < neg:
+      d = -d - Fraction(1, 5)
+    o = rand_opts(rng)
+    data = rand_data(rng, const=o["ek"] in ("ctl", "repeat") or rng.random() < 0.1)
+    prev = [j for j in range(k) if adds[j][3].get("ek") in ("list", "tuple", "deque", "iteronly")]
+    if prev and rng.random() < 0.15:
+      j = rng.choice(prev)
+      data, o = adds[j][2], {"same": j, "dk": o["dk"], "call": o["call"]}
+    adds.append(["add", fr(d), data, o])
+  return adds
+
+
+def merge(rng, adds, nn):
+  """adds keep their order, nn Nexts are placed anywhere"""
+  slots = sorted(rng.randrange(0, len(adds) + 1) for _ in range(nn)) if rng.random() < 0.7 else [len(adds)] * nn
+  ops, k = [], 0
+  for i in range(len(adds) + 1):
+    while k < nn and slots[k] == i:
+      ops.append(["next"]); k += 1
+    if i < len(adds):
+      ops.append(adds[i])
+  return ops
+
+
+def with_life(rng, ops, tail):
+  """inserts derive / drop: the drop comes after the last add (add needs the object) and after the derive"""
+  last_add = max([i for i, op in enumerate(ops) if op[0] == "add"] + [-1])
+  pd = rng.randrange(0, len(ops) + 1) if rng.random() < 0.6 else 0
+  via = rng.choice(MVIAS)
+  ops = ops[:pd] + [["derive", via]] + ops[pd:]
+  lo = max(last_add + (2 if pd <= last_add else 1), pd + 1)
+  px = rng.randrange(lo, len(ops) + 1)
+  ops = ops[:px] + [["drop", rng.random() < 0.7]] + ops[px:]
+  return ops + [["next"]] * tail, via
+
+
+def rand_case(rng, life, nev=None, tag="life"):
+  nev = rng.randrange(0, 6) if nev is None else nev
+  ops = merge(rng, rand_adds(rng, nev), rng.randrange(0, 14))
+  tags = [tag, "nev=%d" % min(nev, 4)]
+  if life:
+    ops, via = with_life(rng, ops, rng.randrange(1, 12))
+    tags.append("via=" + via)
+  else:
+    ops += [["next"]] * rng.randrange(0, 12)
+  return {"keep": rng.random() < 0.3, "keepk": rng.choice(KEEPK), "zero": rand_zero(rng), "ops": ops, "dkind": "q",
+          "tags": tags}
+
+
+def gen_kinds(tier, rng):
+  """every event KIND x delta type x call style, in a 3-event history with a late add"""
+  dvals = {"q": Fraction(1, 3), "int": Fraction(2), "bool": Fraction(1), "float": Fraction(3, 2), "frac": Fraction(5, 2)}
+  for i, ek in enumerate(EKINDS + ["ctlinf"]):
+    for j, dk in enumerate(DKINDS):
+      for call in (CALLS if tier != "quick" else [CALLS[(i + j) % 4], CALLS[(i + j + 1) % 4]]):
+        const = ek in ("ctl", "repeat", "ctlinf")
+        n2 = 40 if ek == "ctlinf" else 3
+        d2 = [fr(Fraction(5, 3))] * n2 if const else mk_data(n2, 1)
+        o = {"ek": ek, "dk": dk, "call": call}
+        ops = [["add", fr(Fraction(1, 2)), mk_data(2, 0), {"ek": EKINDS[(i + j) % len(EKINDS)], "dk": "frac", "call": call}],
+               ["next"], ["add", fr(dvals[dk]), d2, o], ["next"], ["next"],
+               ["add", fr(Fraction(0)), mk_data(1 + (i + j) % 3, 2), {"ek": ek if not const else "list", "dk": DKINDS[(j + 1) % 5], "call": "pos"}]]
+        ops += [["next"]] * 9
+        keep = (i + j) % 4 == 0
+        yield {"keep": keep, "keepk": KEEPK[(i + j) % 4], "zero": [ZKINDS[(i + 2 * j) % 6], fr(Fraction(0))], "ops": ops,
+               "dkind": "q", "tags": ["kinds", "ek=" + ek, "dk=" + dk]}
+
+
+def gen_end(tier, rng):
+  """reads after the end stay StopIteration; add after the end is accepted and changes nothing"""
+  for via in [None] + MVIAS:
+    for nev in (0, 1, 2):
+      for rep in range(2 if tier == "quick" else 8):
+        adds = rand_adds(rng, nev, neg=0.0)
+        total = int(sum(F(a[1]) for a in adds)) + 8
+        ops = adds + ([["derive", via]] if via and rep % 2 else []) + [["next"]] * total
+        ops += [["next"], ["add", fr(rng.choice(DELTAS)), rand_data(rng, 3), rand_opts(rng)], ["next"], ["next"]]
+        if via:
+          ops += ([["derive", via]] if not rep % 2 else []) + [["drop", True], ["next"], ["next"]]
+        yield {"keep": False, "keepk": rng.choice(KEEPK), "zero": rand_zero(rng), "ops": ops, "dkind": "q",
+               "tags": ["end", "via=%s" % via]}
+
+
+def gen_mix(tier, rng):
+  for c in gen_mix_round1(tier, rng):
+    yield c
+  for c in gen_kinds(tier, rng):
+    yield c
+  for c in gen_end(tier, rng):
+    yield c
+  for _ in range(400 if tier == "quick" else 6000):
+    yield rand_case(rng, life=True)
+  for _ in range(150 if tier == "quick" else 2000):
+    yield rand_case(rng, life=False, tag="args")
+
+
+def gen_mixes(tier, rng):
+  """2-3 mixers alive together: built up front or one after another, operated in an interleaved schedule; twins share
+  everything but one ingredient"""
+  for _ in range(200 if tier == "quick" else 3000):
+    k = rng.choice([2, 2, 3])
+    subs = [rand_case(rng, life=rng.random() < 0.3, nev=rng.randrange(1, 5), tag="multi")]
+    mode = rng.choice(["indep", "twin", "twin_zero", "twin_keep", "twin_data"])
+    while len(subs) < k:
+      if mode == "indep":
+        subs.append(rand_case(rng, life=rng.random() < 0.3, nev=rng.randrange(0, 5), tag="multi"))
+        continue
+      t = json_copy(subs[0])
+      if mode == "twin_zero": t["zero"] = rand_zero(rng)
+      if mode == "twin_keep": t["keep"] = not t["keep"]
+      if mode == "twin_data":
+        adds = [op for op in t["ops"] if op[0] == "add"]
+        for op in adds:
+          op[2] = adds[op[3]["same"]][2] if "same" in op[3] else [[a + b, b] for a, b in op[2]]
+      subs.append(t)
+    sched = [i for i, c in enumerate(subs) for _ in c["ops"]]
+    order = rng.choice(["shuffle", "shuffle", "seq", "rr"])
+    if order == "shuffle": rng.shuffle(sched)
+    if order == "rr": sched = [i for _, i in sorted((n, i) for i, c in enumerate(subs) for n in range(len(c["ops"])))]
+    yield {"subs": subs, "sched": sched, "lazy": rng.random() < 0.5, "tags": ["multi", "k=%d" % k, mode, order]}
+
+
+def json_copy(x):
+  import json
+  return json.loads(json.dumps(x))
 
 
 def run_mix(c):
-  import audiolazy
-  zk, zv = c["zero"]
-  zero = {"int": int(Fraction(*zv)), "float": float(Fraction(*zv)), "q": ExactQ(Fraction(*zv))}[zk]
-  sm = audiolazy.Streamix(keep=c["keep"], zero=zero)
-  out = []
-  for op in c["ops"]:
-    try:
-      if op[0] == "add":
-        try:
-          sm.add(_delta(op[1], c["dkind"]), [ExactQ(Fraction(a, b)) for a, b in op[2]])
-          out.append(["added"])
-        except ValueError:
-          out.append(["rejected"])
-      else:
-        try:
-          v = sm.take()
-          out.append(["item", fr(to_frac(v))])
-        except StopIteration:
-          out.append(["stop"])
-    except Exception as e:
-      out.append(["raise", type(e).__name__])
-  return {"outs": out}
+  r = MixRunner(c)
+  out = [o for o in (r.step(op) for op in c["ops"]) if o is not None]
+  return {"outs": out + r.finish()}
+
+
+def run_mixes(c):
+  subs = c["subs"]
+  rs = [None if c["lazy"] else MixRunner(s) for s in subs]
+  pos, outs = [0] * len(subs), [[] for _ in subs]
+  for i in c["sched"]:
+    if rs[i] is None:
+      rs[i] = MixRunner(subs[i])
+    o = rs[i].step(subs[i]["ops"][pos[i]])
+    pos[i] += 1
+    if o is not None:
+      outs[i].append(o)
+  return {"outs": [o + (r.finish() if r else []) for o, r in zip(outs, rs)]}
 
 
 def q(frl):
@@ -109,7 +267,7 @@ def lit_mix(c, o):
   for op in c["ops"]:
     if op[0] == "add":
       ops.append("Add %s %s" % (q(op[1]), L.lst([q(x) for x in op[2]])))
-    else:
+    elif op[0] == "next":
       ops.append("Next")
   obs = []
   for x in o.get("outs", [["raise", o.get("raise", "?")]]):
@@ -119,6 +277,16 @@ def lit_mix(c, o):
     elif x[0] == "stop": obs.append("BStop")
     else: obs.append("BRaise %s" % L.string(x[1]))
   return "(MC %s %s %s %s)" % (L.boolean(c["keep"]), q(c["zero"][1]), L.lst(ops), L.lst(obs))
+
+
+def lit_mixes(c, o):
+  outs = o.get("outs") if isinstance(o.get("outs"), list) and len(o.get("outs", [])) == len(c["subs"]) else None
+  return L.lst([lit_mix(s, {"outs": outs[i]} if outs is not None else {"raise": o.get("raise", "?")})
+                for i, s in enumerate(c["subs"])])
+
+
+def nontrivial_mixes(c, o):
+  return len(set(c["sched"][:len(c["sched"]) // 2 + 1])) > 1 and any(nontrivial_mix(s, None) for s in c["subs"])
 
 
 def nontrivial_mix(c, o):
@@ -131,46 +299,126 @@ def nontrivial_mix(c, o):
   return frac and (late or sum(len(op[2]) for op in adds) > 2)
 
 
-def gen_ctl(tier, rng):
-  vals = [Fraction(1), Fraction(-2, 3), Fraction(5, 2)]
-  alphabet = [["next"]] + [["set", fr(v)] for v in vals]
+CVIAS = ["iter", "stream", "add0", "radd0", "mul1", "sigadd", "sigmul", "map", "copy", "thub", "mix", "mixkw", "filt"]
+CVALS = [Fraction(1), Fraction(-2, 3), Fraction(5, 2)]
+
+
+def gen_ctl_round1(tier, rng):
+  alphabet = [["next"]] + [["set", fr(v)] for v in CVALS]
   maxlen = 4 if tier == "quick" else 6
   for n in range(0, maxlen + 1):
     for ops in itertools.product(alphabet, repeat=n):
       yield {"v0": fr(Fraction(7)), "ops": list(ops), "tags": ["ctl", "len=%d" % n]}
 
 
+def rand_ctl(rng, via, tag="life"):
+  """Set/Next history; the stream is read through `via` from a random point on and the ControlStream object loses its
+  last strong reference after the last Set (at once, or some reads later); reads continue afterwards"""
+  base = [rng.choice([["next"], ["next"], ["set", fr(rng.choice(CVALS))], ["set", fr(Fraction(rng.randrange(-5, 6), rng.choice([1, 2, 3])))]])
+          for _ in range(rng.randrange(0, 8))]
+  last_set = max([i for i, op in enumerate(base) if op[0] == "set"] + [-1])
+  pd = rng.randrange(0, len(base) + 1) if rng.random() < 0.6 else 0
+  ops = base[:pd] + [["derive", via]] + base[pd:]
+  lo = max(last_set + (2 if pd <= last_set else 1), pd + 1)
+  px = rng.randrange(lo, len(ops) + 1)
+  ops = ops[:px] + [["drop", rng.random() < 0.7]] + ops[px:] + [["next"]] * rng.randrange(1, 5)
+  return {"v0": fr(Fraction(rng.choice([7, 10, -3]), rng.choice([1, 2]))), "ops": ops, "tags": [tag, "via=" + via]}
+
+
+def gen_ctl(tier, rng):
+  for c in gen_ctl_round1(tier, rng):
+    yield c
+  # the object never had a name: temporary in an expression, local of a helper, handed straight to a mixer
+  for h in ("func", "temp", "tempmix"):
+    for v0 in CVALS:
+      for n in (1, 4):
+        yield {"v0": fr(v0), "helper": h, "ops": [["next"]] * n, "tags": ["helper", h]}
+  for via in CVIAS:
+    for _ in range(30 if tier == "quick" else 300):
+      yield rand_ctl(rng, via)
+
+
+def gen_ctls(tier, rng):
+  for _ in range(150 if tier == "quick" else 2000):
+    k = rng.choice([2, 2, 3])
+    subs = [rand_ctl(rng, rng.choice(CVIAS), "multi") if rng.random() < 0.5 else
+            {"v0": fr(rng.choice(CVALS)), "tags": [],
+             "ops": [rng.choice([["next"], ["set", fr(rng.choice(CVALS))]]) for _ in range(rng.randrange(1, 8))]}
+            for _ in range(k)]
+    if rng.random() < 0.4:      # twins: same start value, different assignments
+      for s in subs[1:]:
+        s["v0"] = subs[0]["v0"]
+    sched = [i for i, c in enumerate(subs) for _ in c["ops"]]
+    rng.shuffle(sched)
+    yield {"subs": subs, "sched": sched, "lazy": rng.random() < 0.5, "tags": ["multi", "k=%d" % k]}
+
+
 def run_ctl(c):
-  import audiolazy
-  cs = audiolazy.ControlStream(ExactQ(Fraction(*c["v0"])))
   out = []
   try:
+    r = CtlRunner(c)
     for op in c["ops"]:
-      if op[0] == "set":
-        cs.value = ExactQ(Fraction(*op[1]))
-      else:
-        out.append(fr(to_frac(cs.take())))
+      v = r.step(op)
+      if v is not None:
+        out.append(v)
   except Exception as e:
     return {"raise": type(e).__name__, "vals": out}
   return {"vals": out}
 
 
+def run_ctls(c):
+  subs = c["subs"]
+  res = [{"vals": []} for _ in subs]
+  rs, pos = [None] * len(subs), [0] * len(subs)
+  for i in ([] if c["lazy"] else range(len(subs))):
+    rs[i] = CtlRunner(subs[i])
+  for i in c["sched"]:
+    op = subs[i]["ops"][pos[i]]
+    pos[i] += 1
+    if "raise" in res[i]:
+      continue
+    try:
+      if rs[i] is None:
+        rs[i] = CtlRunner(subs[i])
+      v = rs[i].step(op)
+      if v is not None:
+        res[i]["vals"].append(v)
+    except Exception as e:
+      res[i]["raise"] = type(e).__name__
+  return {"subs": res}
+
+
 def lit_ctl(c, o):
-  ops = ["CSet %s" % q(op[1]) if op[0] == "set" else "CNext" for op in c["ops"]]
-  vals = [q(v) for v in o["vals"]]
+  ops = ["CSet %s" % q(op[1]) if op[0] == "set" else "CNext" for op in c["ops"] if op[0] in ("set", "next")]
+  vals = [q(v) for v in o.get("vals", [])]
   if "raise" in o:
     vals.append("(qc 987654321 1)")  # an exception can never equal the model's list
   return "(CC %s %s %s)" % (q(c["v0"]), L.lst(ops), L.lst(vals))
 
 
+def lit_ctls(c, o):
+  subs = o.get("subs") or [{"raise": o.get("raise", "?")}] * len(c["subs"])
+  return L.lst([lit_ctl(s, so) for s, so in zip(c["subs"], subs)])
+
+
 def nontrivial_ctl(c, o):
-  kinds = [op[0] for op in c["ops"]]
-  s = "".join(k[0] for k in kinds)
+  s = "".join(op[0][0] for op in c["ops"] if op[0] in ("set", "next"))
+  if any(op[0] == "drop" for op in c["ops"]) or c.get("helper"):
+    i = [op[0] for op in c["ops"]].index("drop") if not c.get("helper") else 0
+    return any(op[0] == "next" for op in c["ops"][i:])      # a read after the object became unreferenced
   return "sns" in s.replace("nn", "n")
+
+
+def nontrivial_ctls(c, o):
+  return len(set(c["sched"][:len(c["sched"]) // 2 + 1])) > 1 and any("s" in [op[0][0] for op in s["ops"]] for s in c["subs"])
 
 
 IMPORTS = "From AL Require Import C16.Model C16.Spec C16.Check."
 FAMILIES = {
   "mix": Family("mix", IMPORTS, "mcase", "corr_mix", "holds_mix", gen_mix, run_mix, lit_mix, nontrivial_mix),
   "ctl": Family("ctl", IMPORTS, "ccase", "corr_ctl", "holds_ctl", gen_ctl, run_ctl, lit_ctl, nontrivial_ctl),
+  "mixes": Family("mixes", IMPORTS, "(list mcase)", "corr_mixes", "holds_mixes", gen_mixes, run_mixes, lit_mixes,
+                  nontrivial_mixes),
+  "ctls": Family("ctls", IMPORTS, "(list ccase)", "corr_ctls", "holds_ctls", gen_ctls, run_ctls, lit_ctls,
+                 nontrivial_ctls),
 }
